@@ -17,17 +17,31 @@ except Exception as _ex:  # the generator itself broke: same fallback as an unpa
     CONV_PARAMS2_STATUS = "unparsed generator-failed: %s" % str(_ex)[:200]
 
 
+# coq/gen/ConvParams4.v (fourth round): thresholds of Repr::binary_to_f32 / binary_to_f64, the two literals of round_to_subnormal and the
+# shape of the repaired division route of Context::convert_base; Conv/ConvParams4Proof.v ties them to the models.  Same fallback.
+try:
+    import translate_c06_r4
+    CONV_PARAMS4_STATUS = translate_c06_r4.generate(core.REPO, os.path.join(core.COQ, "gen"))
+except Exception as _ex:
+    CONV_PARAMS4_STATUS = "unparsed generator-failed: %s" % str(_ex)[:200]
+
+
 def extra_phase(tier, seed, exes, oracle):
     word = CONV_PARAMS2_STATUS.split(" ", 1)[0]
+    word4 = CONV_PARAMS4_STATUS.split(" ", 1)[0]
     return {
         "evaluations": 0,
-        "hist": {"translator_c06_r3:ConvParams2:" + word: 1},
+        "hist": {"translator_c06_r3:ConvParams2:" + word: 1, "translator_c06_r4:ConvParams4:" + word4: 1},
         "nontrivial": [],
         "samples": [{"fragment": "coq/gen/ConvParams2.v (tools/translate_c06_r3.py from rational/src/convert.rs, float/src/convert.rs, "
                                  "integer/src/convert.rs)",
                      "status": CONV_PARAMS2_STATUS,
                      "tied_by": "C06_fast_f32_gen_tie, C06_fast_f64_gen_tie, C06_rat_try_f32_gen, C06_rat_try_f64_gen, C06_source_literals_tie_r3"
-                                if word == "ok" else "correspondence run only (source not parsed; previous copy marked STALE)"}],
+                                if word == "ok" else "correspondence run only (source not parsed; previous copy marked STALE)"},
+                    {"fragment": "coq/gen/ConvParams4.v (tools/translate_c06_r4.py from float/src/convert.rs: binary_to_f32/f64, round_to_subnormal, "
+                                 "division route of convert_base)",
+                     "status": CONV_PARAMS4_STATUS,
+                     "tied_by": "C06_source_literals_tie_r4" if word4 == "ok" else "correspondence run only (source not parsed; previous copy marked STALE)"}],
         "failures": [],
     }
 
@@ -36,10 +50,10 @@ ID = "C06"
 READY = True
 ORACLE = "c06"
 HARNESS_BIN = "c06"
-NCASES = {"quick": 24000, "thorough": 400000}
+NCASES = {"quick": 20000, "thorough": 400000}
 CASE_TIMEOUT = {"quick": 30, "thorough": 120}
 
-LEVEL_TEXT = ("Coq theorems for all inputs (coq/props/C06.v, 90 statements incl. 5 refutations of the open findings on their witnesses). Rounds 1-2: the as-is model of "
+LEVEL_TEXT = ("Coq theorems for all inputs (coq/props/C06.v, 108 statements incl. refutations of the findings on their witnesses; the refutations of the classes repaired in round 4 are kept over the models of the old code). Rounds 1-2: the as-is model of "
               "FloatEncoding::encode (one text, the f32 and f64 constants) returns the round-to-nearest-even bit pattern and the true error sign of mantissa*2^exponent for every "
               "i32/i64 mantissa and every exponent (overflow, normal, subnormal, underflow branches); decode is its inverse on every "
               "finite pattern; UBig/IBig::to_f32/to_f64 are correct for EVERY integer (multi-word route: top 31/63 bits + sticky bit, then encode; double-word route: native cast, "
@@ -63,23 +77,38 @@ LEVEL_TEXT = ("Coq theorems for all inputs (coq/props/C06.v, 90 statements incl.
               "rounded pattern of the approximate quotient, and that quotient is within (-1, +4.5) units of its own last place of the exact |N|/D for every input (a proved bound for "
               "the 'bounded error' half of the contract). The literals of all these functions are re-read from the repository on every run (coq/gen/ConvParams.v, ConvParams2.v) and "
               "the theorems on TryFrom<RBig> for f32/f64, to_f32_fast/to_f64_fast and the small-exponent route are stated over the regenerated numbers. Every implementation answer of "
-              "every conversion named by the property is judged by the extracted specification on generated inputs; every modelled op also reports model fidelity (asis=same).")
-LEVEL_NOTE = ("Trusted: Coq kernel, extraction + FastZ.v, zarith, harness, the contract of Rust's `as` casts between integers and floats "
-              "(uN as f32/f64 = round to nearest even, f as uN = truncate and saturate; modelled as cast_uint = the rounding specification and cast_back), f32/f64::MANTISSA_DIGITS = 24/53 "
-              "(a constant of core, not of the repository). The in-house "
+              "every conversion named by the property is judged by the extracted specification on generated inputs; every modelled op also reports model fidelity (asis=same). "
+              "Round 4: (1) the division route of Context::convert_base (small negative exponent, bases that are not powers of one another) was REPAIRED (pad the dividend, divide exactly, "
+              "cut to the precision, one rounding; repr_div with its p+1-digit quotient is no longer called) and its as-is model div_round_once is proved for EVERY target base, precision, mode, "
+              "non-zero dividend and positive divisor to return the correctly rounded p-digit quotient with the truthful flag and never more than p digits; FBig<R,B>/Repr<B>::to_f32/to_f64 on "
+              "that route (exponent -38..-1, regenerated) are proved correctly rounded with the truthful flag from the smallest normal number on, overflow included, the debug assertion "
+              "of into_f32/f64_internal cannot fire; (2) FBig<R,2>/Repr<2>::to_f32/to_f64 were REPAIRED below the smallest normal number (one rounding in the mode of the number at the "
+              "smallest subnormal; sign of a zero result kept) and the repaired code is proved over the WHOLE range - normal, subnormal, underflow, overflow - for every mode: the IEEE rounding "
+              "of the exact value with the truthful flag; TryFrom<FBig<R,2>/Repr<2>> for f32/f64 re-proved over it; (3) the two models of Rust's `as` casts used by the conversions are proved "
+              "equal to the Rust Reference's numeric casts stated over Flocq (integer -> float = binary_normalize mode_NE; float -> integer = Btrunc clamped to the type, NaN -> 0) and the "
+              "reference functions are compared with the compiler's casts on every run for all 12 integer types x both formats on edge patterns (every f32 exponent field, every bit "
+              "position, ties at every length); (4) for a base that is not a power of two and |exponent| > 38 the conversion is proved to be the base-2 conversion of the approximant of "
+              "convert_base's ln/exp route (C08's as-is model over C11's ln/exp, any estimate layer): one rounding to 24/53 bits + exact encoding, no assertion, correctly rounded with the "
+              "truthful flag relative to that approximant; the model runs in the oracle (fidelity 100 %). The thresholds of binary_to_f32/f64, the literals of round_to_subnormal and the shape "
+              "of the repaired division route are regenerated on every run (coq/gen/ConvParams4.v, C06_source_literals_tie_r4).")
+LEVEL_NOTE = ("Trusted: Coq kernel, extraction + FastZ.v, zarith, harness, f32/f64::MANTISSA_DIGITS = 24/53 (a constant of core, not of the repository). Rust's `as` casts "
+              "between integers and floats are no longer an unproved contract: cast_uint / cast_back are proved equal to the Rust Reference's wording over Flocq (binary_normalize mode_NE; Btrunc "
+              "clamped, NaN -> 0) and that wording is compared with the compiler's casts on every run (what remains trusted is that the compiler behaves on all values as on the ~100 000 edge "
+              "patterns compared). The in-house "
               "specification ieee_rne is not trusted for dyadic sources (proved = Flocq); for a rational source N/D that is not dyadic, and for the directed modes of "
               "FBig::to_f32, ieee_round (round_rat_at / spec_round on Z, pattern monotone in the value) is the definition of 'correctly rounded'; rat_to_fbig_spec (round_rat_at at the exponent "
               "rat_exp - p + 1) is the definition of 'correctly rounded p-digit float'. Compared on every run but NOT proved: "
-              "FBig::to_f32/to_f64 for a base that is not a power of two with a NEGATIVE exponent (open class fbig_to_float_division_route) and below the smallest normal number (open class "
-              "fbig_to_float_subnormal; as-is behaviour proved, specification not met), the distance in PATTERNS of to_f32_fast/to_f64_fast from the correctly rounded value (contract +-1, observed "
-              "+-2: open class; proved: the quotient handed to encode is less than 4.5 of its units off), TryFrom<UBig/IBig> for f32/f64 (as-is model compared; open class int_to_float_refuses_representable pinned by the repository's tests), the logarithm route "
-              "of convert_base (|exponent| > 38, C08). trailing_zeros + shift is modelled as normalize 2 (odd part, count); is_power_of_two as 'odd part = 1'. "
+              "FBig::to_f32/to_f64 for a base OTHER THAN 2 below the smallest normal number (open class "
+              "fbig_to_float_subnormal, narrowed in round 4; as-is behaviour proved, specification not met), the accuracy of the ln/exp route of convert_base for |exponent| > 38 (open class "
+              "fbig_to_float_large_route = C08's F05 seen from to_f32/to_f64; proved: everything after the approximant; the as-is model needs an f32 estimate layer, instantiated in the oracle with "
+              "OCaml single-precision arithmetic as in C08/C11, evaluated under a time budget), the distance in PATTERNS of to_f32_fast/to_f64_fast from the correctly rounded value (contract +-1, observed "
+              "+-2: open class; proved: the quotient handed to encode is less than 4.5 of its units off), TryFrom<UBig/IBig> for f32/f64 (as-is model compared; open class int_to_float_refuses_representable pinned by the repository's tests). trailing_zeros + shift is modelled as normalize 2 (odd part, count); is_power_of_two as 'odd part = 1'. "
               "The kind of refusal (OutOfBounds / LossOfPrecision) of TryFrom<FBig> for primitive integers with a negative exponent depends on the f32 log2 estimate (C12): fidelity there is "
               "counted on 'both refuse'. IBig arithmetic under the conversions is taken as Z (C01/C02/C09); IBig >> is floor (C09) - the model of to_f32_fast was corrected in round 3 "
               "to shift a negative numerator before taking its magnitude. The models are hand transcriptions tied to the code by the regenerated literals "
               "(theorems C06_source_literals_tie, C06_source_literals_tie_r3, C06_*_gen*) and by the correspondence run (asis=same on every case), whose generators reach every branch "
               "threshold at -1/0/+1.")
-TECHNIQUE = "Coq proof (as-is models of encode/decode/to_f32/to_f64/to_float/to_int/TryFrom glue/range checks = Z-level IEEE and rounding specifications = Flocq binary_normalize; models at literals regenerated from the sources) + extracted specification and as-is models on a correspondence run"
+TECHNIQUE = "Coq proof (as-is models of encode/decode/to_f32/to_f64/to_float/to_int/TryFrom glue/range checks/convert_base division route = Z-level IEEE and rounding specifications = Flocq binary_normalize / Btrunc; Rust casts = Flocq; models at literals regenerated from the sources) + extracted specification and as-is models (incl. C08's ln/exp route) on a correspondence run; two defects repaired in the repository this round"
 RULE = ("cases = conversion x source values: every primitive type at MIN/MAX and one beyond on both sides; integers 2^k+-{0,1,2} for k at "
         "8,16,24,25,32,53,54,64,65,128,129,1024 and the f32/f64 overflow thresholds (2^128-2^104, 2^128-2^103, 2^1024-2^971, 2^1024-2^970) "
         "+-1; integers made of a 24/53-bit head, a tie / near-tie / quarter pattern below it and up to 200 further bits; integers cut 30..32 / 62..64 bits (the truncation "
@@ -91,21 +120,26 @@ RULE = ("cases = conversion x source values: every primitive type at MIN/MAX and
         "53..56 bits with exact ties and near-ties, scaled to every exponent class including subnormal and overflow; floats of base 2, "
         "3, 8, 10, 16, 36 with 1..60-digit significands; reduced fractions man*2^e with 1..MANTISSA_DIGITS+2-bit odd mantissas whose top bit sits at the "
         "TryFrom<RBig> window ends -1/0/+1 (also times 3, 5, 7 in the denominator); numerators longer than the 48/106 bits to_f32_fast/to_f64_fast keep, negative "
-        "ones with a dropped part of zero / one bit / all ones (the floor shift rounds them away from zero). non-trivial = the oracle evaluated the Coq specification on the case (all "
+        "ones with a dropped part of zero / one bit / all ones (the floor shift rounds them away from zero); non-binary floats on the division route of convert_base (ties t*odd^k +-1, +-2, "
+        "dividends at the padding threshold -1/0/+1, short dividends, exactly representable quotients, the f32 overflow threshold) and beyond exponent 38 (random, thresholds, exactly "
+        "representable values); binary exponents far outside every window (+-2^15, +-2^16 +- the window of the format, +-2^17 for rationals, up to +-2^62 for floats); Rust's own casts: "
+        "a fixed sweep of 1347 lines (every integer type x every f32 exponent field / the relevant f64 fields x 6 mantissas x sign; 2^k+-{0,1,2}, tie heads at every length) plus random ones. non-trivial = the oracle evaluated the Coq specification on the case (all "
         "cases); the histogram cls= separates exact / rounded-up / rounded-down / refused answers.")
 EXPLANATION = ("Verdicts come from ConvSpec.v: ieee_round (N/D rounded at the exponent of the last place the format offers, pattern "
                "monotone in the value, overflow to infinity, error sign by exact comparison), decode_spec, to_prim_spec, "
                "float_to_int_spec, rat_to_int_spec, exact_to_float (a lossless conversion exists iff rounding is exact), "
                "rat_to_fbig_spec, int_round_spec. A refusal may carry either error kind. The as-is models (ConvModel.v, ConvModel2.v, ConvTryProofs.v, Float/RoundOpsModel.v) "
-               "only give the fidelity column and decide whether a wrong answer inside an open class is the predicted one.")
+               "only give the fidelity column and decide whether a wrong answer inside an open class is the predicted one. The casts cast_i2f / cast_f2i are judged by the Flocq reference "
+               "functions of Conv/ConvCastModel.v. Base-2 floats with exponents beyond +-6000 are judged at the clamped exponent (same rounding result).")
 TRUSTED_BASE = [
     "Coq 8.16.1 kernel",
     "extraction: ExtrOcamlBasic + ExtrOcamlZBigInt + coq/extract/FastZ.v directives; zarith 1.12; oracle/driver_c06.ml (fractions of the case operands, reduction by gcd)",
     "harness/src/bin/c06.rs and hlib: integers move through raw words, floats through to_bits/from_bits",
-    "Rust's primitive casts: `uN as f32/f64` rounds to nearest even, `f as uN` truncates and saturates (modelled as cast_uint / cast_back; what the code does with them is proved)",
+    "Rust's primitive casts: the Rust Reference's numeric-cast semantics stated over Flocq (Conv/ConvCastModel.v) is proved equal to the models cast_uint / cast_back and compared with the compiler's casts on every run (ops cast_i2f / cast_f2i, all 12 integer types, edge patterns); trusted only beyond the compared patterns",
     "Flocq 's IEEE754.Binary / Bits (binary_normalize, bits_of_b32/b64) as the reference meaning of the rounding specification; the standard library's real-number axioms (ClassicalDedekindReals.sig_not_dec, sig_forall_dec, functional_extensionality_dep, Classical_Prop.classic) enter through it",
     "IBig shifts, division and bit_len under the conversions behave as on Z (C01, C02, C09); round tables of float/src/round.rs regenerated by tools/translate.py",
-    "tools/translate_c06_r3.py (regular expressions over rational/src/convert.rs, float/src/convert.rs, integer/src/convert.rs -> coq/gen/ConvParams2.v at plug-in import; reports unparsed and keeps the last good copy when the source is rewritten)",
+    "tools/translate_c06_r3.py (regular expressions over rational/src/convert.rs, float/src/convert.rs, integer/src/convert.rs -> coq/gen/ConvParams2.v at plug-in import; reports unparsed and keeps the last good copy when the source is rewritten); tools/translate_c06_r4.py likewise (float/src/convert.rs -> coq/gen/ConvParams4.v)",
+    "the as-is model of the ln/exp route of convert_base is C08's (Float/LargeExpAsis.v) over C11's as-is ln/exp (Float/ElemAsis.v), imported read-only; its f32 estimate layer is instantiated in oracle/driver_c06.ml with OCaml floats rounded to single precision (as oracle/driver_c08.ml does)",
     "the as-is models and proofs of FBig::to_int / Repr::to_int are C10's (Float/RoundOpsModel.v, RoundOpsProof.v); C06 proves their specification equal to its own to_int statement",
     "f32::MANTISSA_DIGITS = 24, f64::MANTISSA_DIGITS = 53 (core)",
 ]
@@ -540,7 +574,7 @@ def gen_cases(rng, tier, n):
         elif op == "dec":
             out.append("dec %s %x" % (f, gen_bits(rng, f)))
         elif op in ("rtof", "rfast", "r2f"):
-            if rng.chance(1, 10):
+            if rng.chance(1, 20 if tier == "quick" else 10):
                 # exponents far outside the window (the `as i16` cast of TryFrom<RBig>, the isize shifts of to_f32/to_f64): a short or
                 # (p+1)-bit mantissa times 2^+-E as a huge numerator or a huge power-of-two denominator, sometimes times 3 in the denominator
                 p, emin, eb = FMT[f]
@@ -593,6 +627,11 @@ def gen_cases(rng, tier, n):
         elif op == "r2int":
             nn = gen_bigint(rng, True) if rng.chance(1, 2) else rng.range(-300, 300)
             dd = rng.choice([1, 1, 1, 2, 3, 7, abs(nn) or 1, 1 << 64, rng.range(1, 1000)])
+            if rng.chance(1, 4):
+                # an integer (or not) stored with a common odd factor: Relaxed keeps 6/3, 15/5, -9/3 as they are
+                k = rng.choice([3, 5, 7, 9, 15, 255, (1 << 61) - 1, rng.range(3, 1000) | 1])
+                dd = k * rng.choice([1, 1, 1, 2, 3])
+                nn = nn * k if rng.chance(3, 4) else nn
             t = rng.choice(UNS + SGN)
             out.append(rng.choice(["r2u %s %s" % (hx(nn), hx(dd)), "r2i %s %s" % (hx(nn), hx(dd)), "r2p %s %s %s" % (t, hx(nn), hx(dd))]))
         elif op == "rtoint":
@@ -643,7 +682,7 @@ def gen_cases(rng, tier, n):
                 p, emin, eb = FMT[f]
                 e = rng.choice([0, 1, -1, rng.range(-5, 5), (emin // lg) + rng.range(-3, 8), ((emin + p + (1 << eb)) // lg) + rng.range(-8, 2), rng.range(-300, 300)])
                 s, e = hx(s), hx(e)
-            elif rng.chance(1, 5):
+            elif rng.chance(1, 8 if tier == "quick" else 5):
                 s, e = gen_large_route(rng, f, b)
                 s, e = hx(s), hx(e)
             elif rng.chance(1, 2):
